@@ -2,7 +2,7 @@
 
 SPEC  IPFSConnMC: daemon process (go-ipfs-pinner semantics + one scripted behaviour per request) and the
       connector transcribed from ipfshttp.go; every predicate of the statement (SuccessSound, FailureReported,
-      NoRedundantRequest, UnpinIdempotent, StallGivesUp, UpdateOnlyIfRecursive, SourceKept, OriginsBestEffort, CallReturns, CancelPropagates) on every terminal
+      NoRedundantRequest, LsTruthful, UnpinIdempotent, StallGivesUp, UpdateOnlyIfRecursive, SourceKept, OriginsBestEffort, CallReturns, CancelPropagates) on every terminal
       state, exhaustively.  Two deliberate "what if" runs show the design-level findings (no trailer check,
       no watchdog on pin/update) as model counterexamples; they only count if the real code follows them.
 GEN   TLC prints one script per terminal state of the model (call + prior pin table + behaviour per request).
